@@ -6,7 +6,7 @@
    side by side. *)
 From Coq Require Import String ZArith List Bool.
 From SK Require Import Model.Skel Model.Stm Model.Gzip Model.GzipSk
-     Proofs.Gzip Gen.SkelTree.
+     Proofs.Gzip Model.Task Proofs.TaskLoop Proofs.Compose Gen.SkelTree.
 Import ListNotations.
 Open Scope Z_scope.
 
@@ -18,7 +18,7 @@ Theorem C12_gzip_transparent :
   forall (Res : Type) (search : list Z -> Res) (empty : Res),
   search [] = empty ->
   forall f g, wf f -> wf g -> stream f = stream g ->
-  execute Res search empty f = execute Res search empty g.
+  Gzip.execute Res search empty f = execute Res search empty g.
 Proof. exact gzip_transparent. Qed.
 
 (* every non-empty file takes exactly one of the two branches and both call
@@ -26,8 +26,25 @@ Proof. exact gzip_transparent. Qed.
 Theorem C12_dispatch_total :
   forall (Res : Type) (search : list Z -> Res) (empty : Res),
   search [] = empty ->
-  forall f, wf f -> execute Res search empty f = search (stream f).
+  forall f, wf f -> Gzip.execute Res search empty f = search (stream f).
 Proof. exact execute_is_search. Qed.
+
+(* the premise [search [] = empty] holds for the task model of C01/C07:
+   searching a descriptor that yields no line delivers exactly what the
+   end-of-file pass makes of the initial handler states - nothing for simple
+   searches, and nothing for sequence searches either (no section is open) -
+   so gzip of empty content behaves like the zero-size shortcut *)
+Theorem C12_search_of_nothing :
+  forall (line D St R : Type) (key : D -> Z) (cons : D -> list Z)
+         (ocon : Z -> line -> outcome) (init : D -> St)
+         (step : D -> St -> Z -> line -> St * list R)
+         (post : list (D * St) -> Z -> list R) (MAX NBUF : Z),
+  (1 <= MAX)%Z -> forall ds,
+  exists bs,
+    Task.execute line D St R key cons ocon init step post MAX NBUF ds []
+    = TaskOk bs /\
+    concat bs = post (slot_states D St (search_defs D St key cons init ds)) 0%Z.
+Proof. exact search_of_nothing. Qed.
 
 (* tie to the source: execute() still has the modelled shape *)
 Theorem C12_execute_shape_from_source : execute_shape_ok tk_execute = true.
@@ -38,9 +55,9 @@ Proof. vm_compute. reflexivity. Qed.
 Example C12_example :
   let search := fun s : list Z => (Model.Gzip.lenZ (filter (Z.eqb 10) s), s) in
   let e := (0, @nil Z) in
-  execute _ search e (mkFile 0 Plain []) = execute _ search e (mkFile 20 Gz []) /\
-  execute _ search e (mkFile 4 Plain [97; 10; 98; 10])
-  = execute _ search e (mkFile 24 Gz [97; 10; 98; 10]) /\
+  Gzip.execute _ search e (mkFile 0 Plain []) = Gzip.execute _ search e (mkFile 20 Gz []) /\
+  Gzip.execute _ search e (mkFile 4 Plain [97; 10; 98; 10])
+  = Gzip.execute _ search e (mkFile 24 Gz [97; 10; 98; 10]) /\
   wf (mkFile 0 Plain []) /\ wf (mkFile 20 Gz []) /\
   wf (mkFile 4 Plain [97; 10; 98; 10]).
 Proof. vm_compute. repeat split; discriminate || reflexivity. Qed.
